@@ -1,8 +1,90 @@
-import DendroModel.Basic.Tree
-open DendroModel
+import DendroModel.Model.C16
+open DendroModel DendroModel.C16
+
+/-! protocol
+`hist <tree> | <op> | <op> …`   ops: `C <obj>` (clone object) or
+                                `S <obj> <alphabet> <gaps_as_missing 0/1> <weights: - or w,w,…> <taxonbit> =<symbols> …`
+   → one result per op joined by ` | `: `ok <score> <by,by,…>`, `KeyError`, `ValueError`, `c`
+`sets <alphabet> <0/1> =<symbols>`  → the state-set masks of one row
+`reroot <steps: - or LL,LR,…> <tree>` → rendered tree -/
+
+def splitBar (ws : List String) : List (List String) :=
+  let rec go : List String → List String → List (List String)
+    | [], cur => [cur.reverse]
+    | w :: rest, cur => if w == "|" then cur.reverse :: go rest [] else go rest (w :: cur)
+  go ws []
+
+def parseSyms (s : String) : Option (List Char) :=
+  match s.toList with
+  | '=' :: cs => some cs
+  | _ => none
+
+def parseRows (alph : String) (g : Bool) : List String → Option Matrix
+  | [] => some []
+  | bit :: syms :: rest =>
+    match bit.toNat?, parseSyms syms with
+    | some b, some cs =>
+      match rowOfSymbols alph g cs, parseRows alph g rest with
+      | some row, some m => some ((b, row) :: m)
+      | _, _ => none
+    | _, _ => none
+  | _ => none
+
+def parseWeights (s : String) : Option (Option (List Nat)) :=
+  if s == "-" then some none
+  else ((s.splitOn ",").mapM String.toNat?).map some
+
+def parseFlag (s : String) : Option Bool :=
+  if s == "1" then some true else if s == "0" then some false else none
+
+def parseOp : List String → Option Op
+  | ["C", j] => j.toNat?.map Op.clone
+  | "S" :: j :: alph :: g :: w :: rows =>
+    match j.toNat?, parseFlag g, parseWeights w with
+    | some j, some g, some w =>
+      match parseRows alph g rows with
+      | some m =>
+        -- the statement's domain: a non-empty rectangular matrix and one weight per character
+        if m.isEmpty then none
+        else if !(m.all (fun r => r.2.length == nchar m)) then none
+        else match w with
+          | some wl => if wl.length == nchar m then some (Op.score j m w) else none
+          | none => some (Op.score j m none)
+      | none => none
+    | _, _, _ => none
+  | _ => none
+
+def showRes : Res → String
+  | .ok s bc => s!"ok {s} " ++ (if bc.isEmpty then "-" else ",".intercalate (bc.map toString))
+  | .err e => e.name
+  | .cloned => "c"
+  | .badObj => "bad-obj"
+
+def parseStep (s : String) : Option Step :=
+  match s with
+  | "LL" => some .LL | "LR" => some .LR | "RL" => some .RL | "RR" => some .RR
+  | _ => none
 
 def handle (ws : List String) : String :=
   match ws with
+  | "hist" :: rest =>
+    match splitBar rest with
+    | treeToks :: ops =>
+      match parseTree treeToks, ops.mapM parseOp with
+      | some (t, []), some ops => " | ".intercalate ((runHist t [[]] ops).map showRes)
+      | _, _ => "bad-op"
+    | [] => "bad-op"
+  | ["sets", alph, g, syms] =>
+    match parseFlag g, parseSyms syms with
+    | some g, some cs =>
+      match rowOfSymbols alph g cs with
+      | some row => if row.isEmpty then "-" else natList row
+      | none => "bad-symbol"
+    | _, _ => "bad-op"
+  | "reroot" :: steps :: rest =>
+    match (if steps == "-" then some [] else (steps.splitOn ",").mapM parseStep), parseTree rest with
+    | some p, some (t, []) => (reroot p t).render
+    | _, _ => "bad-op"
   | _ => "bad-op"
 
 def main : IO Unit := do driverLoop (← IO.getStdin) handle
